@@ -235,6 +235,9 @@ FullSync<'a, ItemType, BUFFER_SIZE, MAX_STREAMS> {
 
     #[inline(always)]
     fn drop_resources(&self, stream_id: u32) {
+        // whatever this listener left unconsumed goes away with it: a later listener that is given the same `stream_id`
+        // must not yield events sent before it existed
+        while self.consume(stream_id).is_some() {}
         self.streams_manager.report_stream_dropped(stream_id);
     }
 }
